@@ -2561,7 +2561,7 @@ impl<'de> serde::de::Visitor<'de> for AnnotationsVisitor<'_> {
             if let Some(mut annotationbuilder) = annotationbuilder {
                 let handle_from_temp_id = if self.store.config().strip_temp_ids() {
                     if let BuildItem::Id(s) = &annotationbuilder.id {
-                        resolve_temp_id(s.as_str())
+                        resolve_temp_id(s.as_str(), Annotation::temp_id_prefix())
                     } else {
                         None
                     }
